@@ -678,7 +678,7 @@ fn main() {
     // tick sweep on the real clock and the scripted-clock paces, for few and many threads
     for pace in [5u64, 6, 7] {
         for threads in [2u64, 3, 8, 16] {
-            let calls = if pace == 5 { 3_000 } else { 6_000 };
+            let calls = if pace == 5 { 1_500 } else { 6_000 };
             serial += 1;
             emit(&mut out, format!("T {:x} {:x} {:x} {:x} {:x}", serial, serial % 3, threads, calls, pace));
             budget -= (threads * calls) as i64;
@@ -728,7 +728,7 @@ fn main() {
             };
             let per = if pace == 2 { per.min(3_000) } else { per };
             let per = if pace == 4 { (per / 2 * 2).max(2) } else { per };
-            let per = if pace == 5 { (per.min(6_000) / 3 * 3).max(3) } else { per };
+            let per = if pace == 5 { (per.min(3_000) / 3 * 3).max(3) } else { per };
             emit(&mut out, format!("T {:x} {:x} {:x} {:x} {:x}", serial, r.below(3), threads, per, pace));
             budget -= (threads * per) as i64;
         }
